@@ -435,8 +435,22 @@ void h_ec_write(void)
 }
 
 /* ------------------------------------------------------------------ bufs_switch as seen by its callers */
+/* the clauses about real state are shared by the contract that unit ex.bufs_switch ENFORCES on
+ * the real function (bufs_switch_frame_contract) and the one callers use; the latter only adds
+ * a ghost record of the call */
+#define BUFS_SWITCH_REAL \
+__CPROVER_requires(0 <= idx && idx < 16 && bufs[idx].lb != 0) \
+__CPROVER_ensures(bufs[0].lb == __CPROVER_old(bufs[idx].lb) && bufs[0].path == __CPROVER_old(bufs[idx].path) && \
+	bufs[0].mtime == __CPROVER_old(bufs[idx].mtime) && bufs[0].id == __CPROVER_old(bufs[idx].id)) \
+__CPROVER_ensures(xrow == (idx ? __CPROVER_old(bufs[idx].row) : __CPROVER_old(xrow)))
+
+void bufs_switch_frame_contract(int idx)
+BUFS_SWITCH_REAL
+__CPROVER_assigns(__CPROVER_object_whole(bufs), xrow, xoff, xtop, xleft, xtd, B.regput_calls)
+;
+
 void bufs_switch_contract(int idx)
-__CPROVER_requires(0 <= idx && idx < 16 && bufs[idx].lb != 0)
+BUFS_SWITCH_REAL
 __CPROVER_assigns(B.switch_calls, B.switch_idx, B.regput_calls, __CPROVER_object_whole(bufs), xrow, xoff, xtop, xleft, xtd)
 __CPROVER_ensures(B.switch_calls == __CPROVER_old(B.switch_calls) + 1 && B.switch_idx == idx)
 ;
@@ -570,10 +584,11 @@ void lbuf_free(struct lbuf *lb)
 	g_free_calls++;
 	g_free_last = lb;
 }
+int g_make_slot;	/* which abstract buffer object the next lbuf_make hands out (a closed slot) */
 struct lbuf *lbuf_make(void)
 {
 	g_make_calls++;
-	return (struct lbuf *) malloc(1);
+	return (struct lbuf *) &g_lbobj[g_make_slot];
 }
 char *syn_filetype(char *path)
 {
@@ -598,11 +613,6 @@ int g_fb;	/* witness byte of the file-type field */
 #define SAMEBUF(a, b)	((a).lb == (b).lb && (a).path == (b).path && (a).id == (b).id && (a).td == (b).td && \
 	(a).mtime == (b).mtime && (a).row == (b).row && (a).off == (b).off && (a).top == (b).top && \
 	(a).left == (b).left && (a).ft[0] == (b).ft[0] && (a).ft[31] == (b).ft[31])
-
-void bufs_switch_frame_contract(int idx)
-__CPROVER_requires(0 <= idx && idx < 16 && bufs[idx].lb != 0)
-__CPROVER_assigns(__CPROVER_object_whole(bufs), xrow, xoff, xtop, xleft, xtd, B.regput_calls)
-;
 
 void h_bufs_switch(void)
 {
@@ -645,6 +655,56 @@ void h_bufs_switch(void)
 #endif
 }
 
+/* bufs_find: first slot whose path equals the argument, or -1 ("/" stands for the unnamed buffer) */
+int bufs_find_contract(char *path)
+__CPROVER_requires(path != 0 && path[0] != '/')
+__CPROVER_assigns()
+__CPROVER_ensures(__CPROVER_return_value >= -1 && __CPROVER_return_value < 16)
+__CPROVER_ensures(__CPROVER_return_value >= 0 ==> (bufs[__CPROVER_return_value].path != 0 &&
+	strcmp(bufs[__CPROVER_return_value].path, path) == 0))
+__CPROVER_ensures((bufs[g_k].path != 0 && strcmp(bufs[g_k].path, path) == 0) ==>
+	(__CPROVER_return_value >= 0 && __CPROVER_return_value <= g_k))
+;
+
+/* bufs_open: (re)initialises the first free slot (slot 15 when the table is full) for the path */
+int bufs_open_contract(char *path)
+__CPROVER_requires(path != 0)
+__CPROVER_requires(0 <= bufs_cnt && bufs_cnt < 0x3fffffff && 0 <= g_free_calls && g_free_calls < 1000 && 0 <= g_make_calls && g_make_calls < 1000)
+__CPROVER_assigns(__CPROVER_object_whole(bufs), bufs_cnt, g_free_calls, g_free_last, g_make_calls, g_dup_src, g_dup_dst)
+__CPROVER_frees(bufs[15].path)
+__CPROVER_ensures(0 <= __CPROVER_return_value && __CPROVER_return_value < 16)
+__CPROVER_ensures(bufs[__CPROVER_return_value].lb != 0 && bufs[__CPROVER_return_value].path != 0)
+__CPROVER_ensures(bufs[__CPROVER_return_value].mtime == -1)
+__CPROVER_ensures(g_make_calls == __CPROVER_old(g_make_calls) + 1)
+/* an open buffer is recycled only when all 16 slots are in use (then it is slot 15) */
+__CPROVER_ensures(g_free_calls == __CPROVER_old(g_free_calls) ||
+	(__CPROVER_return_value == 15 && g_free_calls == __CPROVER_old(g_free_calls) + 1))
+/* every other slot keeps its buffer and path */
+__CPROVER_ensures(g_k == __CPROVER_return_value || (bufs[g_k].lb == __CPROVER_old(bufs[g_k].lb) && bufs[g_k].path == __CPROVER_old(bufs[g_k].path)))
+;
+
+void h_bufs_open(void)
+{
+	char path[2];
+	GHOST_INIT();
+	FILE_ENV_HAVOC();
+	BUFS_HAVOC();
+	g_k = nondet_int();
+	__CPROVER_assume(0 <= g_k && g_k < 16);
+	g_make_slot = nondet_int();
+	__CPROVER_assume(0 <= g_make_slot && g_make_slot < 16);
+	path[0] = nondet_char(); path[1] = 0;
+	/* slot 15 owns its path string (heap) when it is in use */
+	if (bufs[15].lb) {
+		bufs[15].path = malloc(2);
+		bufs[15].path[1] = 0;
+	}
+	bufs_open(path);
+#ifdef CANARY
+	__CPROVER_assert(0, "canary");
+#endif
+}
+
 /* lookup by path, free slot, renumbering */
 void h_bufs_find(void)
 {
@@ -678,6 +738,144 @@ void h_bufs_find(void)
 				__CPROVER_assert(bufs[k].id == n, "bufs_number: ids are dense and follow slot order");
 		}
 	__CPROVER_assert(bufs_cnt == n, "bufs_number: the id counter equals the number of open buffers");
+#ifdef CANARY
+	__CPROVER_assert(0, "canary");
+#endif
+}
+
+/* ================================================================== ec_buffer, ec_edit (C20, C02) */
+int g_atoi;
+/* STUB: atoi - any int (the digits are not interpreted; callers are checked for every value) */
+int atoi(const char *s)
+{
+	__CPROVER_assert(s != 0, "atoi: argument is not NULL");
+	return g_atoi;
+}
+
+int lbuf_rd(struct lbuf *lb, int fd, int beg, int end)
+{
+	B.rd_calls = B.rd_calls < 100 ? B.rd_calls + 1 : 100;
+	return nondet_bool();
+}
+
+void h_ec_buffer(void)
+{
+	char loc[2], cmd[19], arg[3];
+	int k;
+	GHOST_INIT();
+	FILE_ENV_HAVOC();
+	BUFS_HAVOC();
+	CMD_HAVOC(cmd);
+	loc[0] = 0;
+	arg[0] = nondet_char(); arg[1] = nondet_char(); arg[2] = 0;
+	g_atoi = nondet_int();
+	g_k = nondet_int();
+	__CPROVER_assume(0 <= g_k && g_k < 16);
+	__CPROVER_assume(bufs[0].lb != 0);
+	__CPROVER_assume(arg[0] != 0 && arg[0] != '!' && arg[0] != '~');	/* the switching forms */
+	int bang = has_chr(cmd, '!');
+	int dirty0 = B.dirty[0];
+	short id0 = bufs[0].id;
+	/* what the statement names */
+	int want = -1;
+	if (arg[0] >= '0' && arg[0] <= '9') {
+		for (k = 15; k >= 0; k--)
+			if (bufs[k].lb && bufs[k].id == g_atoi)
+				want = k;
+	} else if (arg[0] == '+') {
+		for (k = 0; k < 16; k++)
+			if (bufs[k].lb && bufs[k].id > id0 && (want < 0 || bufs[k].id < bufs[want].id))
+				want = k;
+	} else if (arg[0] == '-') {
+		for (k = 0; k < 16; k++)
+			if (bufs[k].lb && bufs[k].id < id0 && (want < 0 || bufs[k].id > bufs[want].id))
+				want = k;
+	} else {
+		want = arg[0] == '%' ? 0 : arg[0] == '#' ? 1 : arg[0] == '^' ? 2 : -1;
+		if (want >= 0 && !bufs[want].lb)
+			want = -1;
+	}
+	int free0 = g_free_calls;
+	int ret = ec_buffer(loc, cmd, arg, 0);
+	if (want < 0) {
+		__CPROVER_assert(ret == 1 && B.switch_calls == 0, "ec_buffer: an unknown buffer is refused and nothing changes");
+	} else if (!bang && !xwa && !xaw && dirty0) {
+		/* C02 */
+		__CPROVER_assert(ret == 1 && B.switch_calls == 0, "ec_buffer: refuses to leave a modified buffer without '!'");
+	} else if (bang || xwa || !dirty0) {
+		__CPROVER_assert(ret == 0 && B.switch_calls == 1 && B.switch_idx == want, "ec_buffer: the buffer reached is the one named (number, +, -, alias)");
+	}
+	__CPROVER_assert(B.saved_calls == 0, "ec_buffer: switching never marks a buffer saved");
+	__CPROVER_assert(B.rd_calls == 0, "ec_buffer: switching never re-reads a file");
+	__CPROVER_assert(g_free_calls == free0, "ec_buffer: switching never frees a buffer");
+#ifdef CANARY
+	__CPROVER_assert(0, "canary");
+#endif
+}
+
+/* ec_edit */
+char *ex_plus_contract(char *src, char *dst)
+__CPROVER_requires(src != 0 && __CPROVER_w_ok(dst, EXLEN))
+__CPROVER_assigns(dst[0], dst[1])
+__CPROVER_ensures(__CPROVER_return_value != 0 && __CPROVER_same_object(__CPROVER_return_value, src))
+__CPROVER_ensures(dst[0] == 0 || (dst[0] == '+' && dst[1] == 0))
+;
+int ex_command_rec_contract(char *ln)
+__CPROVER_requires(ln != 0)
+__CPROVER_assigns(E, B.show_calls, B.print_calls, xrow, xoff, g_len)
+;
+
+int ec_edit_frame_contract(char *loc, char *cmd, char *arg, char *txt)
+__CPROVER_requires(loc != 0 && cmd != 0 && arg != 0)
+__CPROVER_assigns(E, B, __CPROVER_object_whole(bufs), xrow, xoff, xtop, xleft, xtd, g_dup_src, g_dup_dst, g_len,
+	g_free_calls, g_free_last, g_make_calls, bufs_cnt)
+__CPROVER_frees(bufs[15].path, bufs[0].path)
+;
+
+void h_ec_edit(void)
+{
+	char loc[2], cmd[19], arg[3];
+	char pathbuf[2];
+	GHOST_INIT();
+	FILE_ENV_HAVOC();
+	BUFS_HAVOC();
+	CMD_HAVOC(cmd);
+	loc[0] = 0;
+	arg[0] = nondet_char(); arg[1] = 0;
+	pathbuf[0] = nondet_char(); pathbuf[1] = 0;
+	__CPROVER_assume(pathbuf[0] != '/');
+	B.pathexp_ret = nondet_bool() ? pathbuf : (char *) 0;
+	g_k = nondet_int();
+	__CPROVER_assume(0 <= g_k && g_k < 16);
+	__CPROVER_assume(bufs[0].lb != 0);
+	int bang = has_chr(cmd, '!');
+	int dirty0 = B.dirty[0];
+	/* is the path already open?  (string equality is the uninterpreted strcmp of the stubs) */
+	int open_at = -1, k;
+	for (k = 15; k >= 0; k--)
+		if (bufs[k].path && strcmp(bufs[k].path, pathbuf) == 0)
+			open_at = k;
+	int is_ew = cmd[0] == 'e' && cmd[1] == 'w';
+	g_make_slot = nondet_int();
+	__CPROVER_assume(0 <= g_make_slot && g_make_slot < 16 && bufs[g_make_slot].lb == 0);
+	struct lbuf *target = open_at >= 0 ? bufs[open_at].lb : 0;
+	int free0 = g_free_calls;
+	int ret = ec_edit(loc, cmd, arg, 0);
+	if (!bang && !xwa && !xaw && dirty0) {
+		/* C02 */
+		__CPROVER_assert(ret == 1 && B.switch_calls == 0 && B.rd_calls == 0 && g_open_calls == 0 && g_free_calls == free0 && B.saved_calls == 0,
+			"ec_edit: refuses to leave a modified buffer without '!' and discards nothing");
+	} else if (B.pathexp_ret == 0) {
+		__CPROVER_assert(ret == 1 && B.switch_calls == 0 && B.rd_calls == 0, "ec_edit: an unusable path changes nothing");
+	} else if ((bang || xwa || !dirty0) && pathbuf[0] && open_at >= 0) {
+		/* C20: re-editing an already open path returns to the existing buffer instead of re-reading the file */
+		__CPROVER_assert(B.rd_calls == 0 && g_open_calls == 0, "ec_edit: an already open path is not read again");
+		__CPROVER_assert(B.saved_calls == 0 && g_free_calls == free0 && g_make_calls == 0, "ec_edit: switching to an open buffer neither resets its history nor frees or creates a buffer");
+		__CPROVER_assert(B.switch_calls >= 1 && bufs[0].lb == target, "ec_edit: the buffer reached is the one holding the path");
+	} else if ((bang || xwa || !dirty0) && pathbuf[0] && open_at < 0) {
+		__CPROVER_assert(g_make_calls == 1 && B.rd_calls <= 1 && B.saved_calls == 1 && B.saved_slot == slot_of(bufs[0].lb) ,
+			"ec_edit: a new path gets a new buffer, read once and marked saved");
+	}
 #ifdef CANARY
 	__CPROVER_assert(0, "canary");
 #endif
